@@ -222,7 +222,7 @@ def consistent(draw, max_classes=3, max_inst=4, max_props=3, bnode_classes=False
         n = draw(st.integers(1, max_inst))
         members = []
         for _ in range(n):
-            members.append(["bnode", "_:b%d" % k] if bn else ["iri", node_iri(k)])
+            members.append(["bnode", "_:b%d" % k] if bn else ["iri", ("urn:x:n%d" % k) if draw(st.integers(0, 9)) == 0 else node_iri(k)])
             k += 1
         inst.append(members)
         classes.append(["bnode", "_:c%d" % j] if (bnode_classes and j == n_classes - 1 and draw(st.booleans())) else ["iri", class_iri(j)])
